@@ -3,7 +3,7 @@
    `eval fuel st cur e` is the reference interpreter (Lang/Eval.v): st = all frames + printed
    output, cur = the current frame; results are (state, Val v | Sig s | OutOfFuel). *)
 From Coq Require Import ZArith String List Bool.
-From NV Require Import Lang.Syntax Lang.Eval Lang.Eval_proofs Lang.Eval_rules Lang.Eval_params.
+From NV Require Import Lang.Syntax Lang.Eval Lang.Eval_proofs Lang.Eval_rules Lang.Eval_params Lang.Eval_wf.
 Import ListNotations.
 Open Scope string_scope.
 Open Scope list_scope.
@@ -377,6 +377,34 @@ Theorem C05_bind_splat_too_few : forall rec st fr xs s ys args,
 Proof. exact bind_splat_too_few. Qed.
 Print Assumptions C05_bind_splat_too_few.
 
+(* the store invariant. wf_state st: every frame's parent has a smaller id, and every closure
+   stored in a variable or in the printed output points to an existing frame (vok). From such a
+   state and an existing current frame, EVERY evaluation - any program, any fuel, any outcome -
+   ends in such a state, never loses a frame, and every closure in the value or signal it
+   produces points to an existing frame. (So `resolve`'s walk never meets a dangling or
+   non-decreasing parent link, and a closure can always be called.) *)
+Theorem C05_wf_preserved : forall n st cur e st' r,
+  wf_state st -> cur < len st -> eval n st cur e = (st', r) ->
+  wf_state st' /\ len st <= len st' /\
+  match r with
+  | Val v => vok (len st') v = true
+  | Sig s => sig_ok (len st') s = true
+  | OutOfFuel => True
+  end.
+Proof. exact wf_preserved. Qed.
+Print Assumptions C05_wf_preserved.
+
+(* in particular for whole programs, which start from the initial store *)
+Theorem C05_run_wf : forall n e st' r, run n e = (st', r) ->
+  wf_state st' /\
+  match r with
+  | Val v => vok (len st') v = true
+  | Sig s => sig_ok (len st') s = true
+  | OutOfFuel => True
+  end.
+Proof. exact run_wf. Qed.
+Print Assumptions C05_run_wf.
+
 (* non-vacuity: a loop variable and a variable declared in the body are gone after the loop,
    the outer x is still 1 *)
 Example C05_example_scopes :
@@ -480,3 +508,10 @@ Example C05_example_params :
   = Val (VList [VList [VInt 1; VInt 101]; VList [VInt 1; VInt 2]; VList [VInt 1; VList []; VInt 2];
                 VList [VInt 1; VList [VInt 2; VInt 3]; VInt 4]; VInt 0]).
 Proof. reflexivity. Qed.
+
+(* a closure that escapes its defining call still points to an existing frame *)
+Example C05_example_wf :
+  exists st' ps b env,
+    run 20 (ECall (ELam [] (ESeq [EDecl "c" (EInt 0); ELam [] (EVar "c")] false)) []) = (st', Val (VClos ps b env)) /\
+    env < len st' /\ vok (len st') (VClos ps b env) = true.
+Proof. do 4 eexists. split; [reflexivity|]. split; [cbn; repeat constructor|reflexivity]. Qed.
